@@ -588,10 +588,13 @@ class Recorder:
         def mk_wrecv(orig):
             def receive_frame(iface, frame):
                 where = rec.w.chan_of(iface)
-                att = next((a for a in reversed(rec.open) if a["t"] == "W"), None)
-                if where is not None and att is not None:
+                att = rec.open[-1] if rec.open and rec.open[-1]["t"] == "W" else None
+                if where is not None and att is not None and att["k"] == where[0]:
+                    # one turn of the loop of AirSpace.transmit: the frame in the air is handed to this interface NOW; what its
+                    # node does follows in the same list
                     att["rcv"].append(where[1])
                     att.setdefault("rcv_en", []).append(bool(iface.enabled))
+                    rec.stack[-1].append({"t": "R", "k": where[0], "i": att["end"], "j": where[1], "en": bool(iface.enabled)})
                 return orig(iface, frame)
             return receive_frame
         self._patch(WirelessAccessPoint, "receive_frame", mk_wrecv)
@@ -676,6 +679,8 @@ def tokens(forest: List[dict]) -> List[str]:
             out += ["E", str(e["k"]), "1" if e["end"] else "0", "1" if e["v"] else "0"]
         elif e["t"] == "F":
             out += ["F", str(e["k"]), str(e["end"]), "1" if e["v"] else "0"]
+        elif e["t"] == "R":
+            out += ["R", str(e["k"]), str(e["i"]), str(e["j"])]
         else:
             raise ValueError("tick / capacity marker inside an action")
     return out
@@ -685,6 +690,9 @@ def recs(forest: List[dict]) -> List[str]:
     """Records in the order the send_frame calls returned or were unwound (children before their parent), in the driver's format."""
     out: List[str] = []
     for e in forest:
+        if e["t"] == "R":
+            out.append(f"H{e['k']}:{e['j']}:heard")      # the implementation did hand the frame to interface j
+            continue
         if e["t"] not in ("S", "W"):
             continue
         v = verdict_of(e)
@@ -701,10 +709,7 @@ def recs(forest: List[dict]) -> List[str]:
             out.append(f"S{e['k']}:{v}:{b(enS)}{b(enR)}:{e['load1']}")
         else:
             enS = e["enS"] if crossed else e["enS0"]
-            # an aborted wireless send: the receivers that had been reached before the exception (the model lists all of them; the
-            # rig compares the receiver list only for sends that completed)
-            rcv = ",".join(str(i) for i in sorted(e["rcv"])) if v == "carried" else ("*" if v == "lost" else "")
-            out.append(f"W{e['k']}:{v}:{b(enS)}:{rcv}:{e['load1']}")
+            out.append(f"W{e['k']}:{v}:{b(enS)}:{e['load1']}")
     return out
 
 
